@@ -5,4 +5,6 @@ INVARIANT UnlimitedRefused
 INVARIANT SpecialsRight
 INVARIANT OtherwiseEvaluated
 INVARIANT ExactFlagOrKnown
+CONSTANTS
+  PowiNegKeepsFlag = FALSE
 CHECK_DEADLOCK FALSE
